@@ -327,6 +327,7 @@ type checkOpts struct {
 	solver   string
 	noReplay bool
 	verbose  bool
+	cross    bool
 }
 
 func runCheck(o *checkOpts) int {
@@ -367,6 +368,11 @@ func runCheck(o *checkOpts) int {
 	if tierN == 1 {
 		cfg.validateCap = 2000
 	}
+	if tierN == 1 || o.cross {
+		cfg.crossCap = 400
+	} else {
+		cfg.crossCap = 40
+	}
 	cfg.validateCap = cfg.validateCap/o.workers + 1
 	cfg.sampleCap = cfg.sampleCap/o.workers + 1
 	if o.budget > 0 {
@@ -374,6 +380,35 @@ func runCheck(o *checkOpts) int {
 	}
 	res := explore(w, names, cfg, o.workers, o.solver)
 	st := res.stats
+
+	// ---- cross-solver comparison of a sample of the queries z3 decided
+	crossStats := map[string]interface{}{}
+	crossBad := 0
+	xq := res.xqueries
+	maxX := 120
+	if tierN == 1 || o.cross {
+		maxX = 3000
+	}
+	if len(xq) > maxX { // an even sample
+		step := float64(len(xq)) / float64(maxX)
+		var pick []xquery
+		for i := 0; i < maxX; i++ {
+			pick = append(pick, xq[int(float64(i)*step)])
+		}
+		xq = pick
+	}
+	for _, other := range []string{"cvc5", "z3-new"} {
+		if _, err := exec.LookPath(other); err != nil {
+			continue
+		}
+		n, bad, inc, err := crossCheck(other, xq)
+		if err != nil {
+			crossStats[other] = "error: " + err.Error()
+			continue
+		}
+		crossStats[other] = map[string]int{"compared": n, "disagreements": bad, "unknown_or_error": inc}
+		crossBad += bad
+	}
 
 	// ---- replay candidates and validate sampled passing paths natively
 	findings := loadFindings()
@@ -591,6 +626,8 @@ func runCheck(o *checkOpts) int {
 			"solver":                        o.solver,
 			"solver_queries":                map[string]int64{"sat": res.sat, "unsat": res.unsat, "unknown": res.unknown, "byte_fastpath_decisions": st.fast},
 			"solver_time_s":                 res.solverTime.Seconds(),
+			"cross_solver":                  crossStats,
+			"cross_solver_disagreements":    crossBad,
 			"load_and_ssa_build_s":          loadDur.Seconds(),
 			"infeasible_paths_pruned":       st.infeasible,
 			"inconclusive_paths":            inconTotal,
@@ -636,6 +673,10 @@ func runCheck(o *checkOpts) int {
 	}
 	if violations > 0 {
 		return 1
+	}
+	if crossBad > 0 {
+		fmt.Println("ENGINE-ERROR: z3 and another solver disagree on", crossBad, "queries:", crossStats)
+		return 3
 	}
 	if len(vacuous) > 0 {
 		fmt.Println("ENGINE-ERROR: harnesses without any complete feasible path (vacuous):", vacuous)
